@@ -788,6 +788,12 @@ fn child_main(args: &[String]) {
     for _ in 0..burn {
         hooks::next_raw_id();
     }
+    // "u32": advance the 64-bit counter to just below 2^32, so that the ids of the compilations straddle the
+    // boundary (any truncation of ids to 32 bits would reorder them)
+    if args.len() >= 3 && args[2] == "u32" {
+        let target = (1u64 << 32) - 40;
+        while hooks::next_raw_id() < target {}
+    }
     // children given "rev" compile in reverse order (different id history per value)
     let rev = args.len() >= 3 && args[2] == "rev";
     let order: Vec<usize> = if rev { (0..rs.len()).rev().collect() } else { (0..rs.len()).collect() };
@@ -1102,10 +1108,12 @@ fn run(cfg: &Config, s: &mut Session) {
     let n_children = if thorough { 32 } else { 8 };
     let exe = std::env::current_exe().expect("current_exe");
     let mut kids = vec![];
-    for c in 0..n_children {
+    for c in 0..=n_children {
         let mut cmd = std::process::Command::new(&exe);
         cmd.arg("--child").arg(cfg.seed.to_string()).arg(&cfg.tier);
-        if c % 2 == 1 {
+        if c == n_children {
+            cmd.arg("u32"); // one extra child whose ids straddle 2^32 (about 45 s of fetch_add, in parallel)
+        } else if c % 2 == 1 {
             cmd.arg("rev");
         }
         cmd.stdout(std::process::Stdio::piped()).stderr(std::process::Stdio::null());
